@@ -136,7 +136,7 @@ package kv
 //@ func findCurrentLastKeyInSequence(wb, req) (parts, err)
 //@ property C13 C16
 //@ requires wb != nil && req != nil
-//@ assert at call Split#0: s == "" || exists k string :: strHasPrefix(k, req.Key) && s == strTrim(k, req.Key)
+//@ assert at call Split#0: s == "" || exists k string :: strHasPrefix(k, req.Key + "-") && s == strTrim(k, req.Key)
 //@ ensures err == nil ==> len(parts) <= len(req.SequenceKeyDelta)
 //@ ensures !errIs(err, ErrMissingSequenceDeltas)
 //@ ensures !errIs(err, ErrMissingPartitionKey) && !errIs(err, ErrSequenceDeltaIsZero)
